@@ -3,9 +3,10 @@ CONSTANTS
   Surrounds = {{}, {3, 6, 9, 12}}
   DocHi = {TRUE}
   DocSurs = {{}}
+  FullDocs = FALSE
   E2EAlgs = {"rc4_40", "rc4_128_r3", "rc4_128", "aes_128", "aes_256", "aes_256_r6"}
   ApiAlgs = {"rc4_40", "rc4_128_r3", "rc4_128", "aes_128", "aes_256", "aes_256_r6"}
-  ApiRels = {{}, {4, 5, 10, 11}, {4, 11}, {5, 10}}
+  ApiRels = {{}, {4}, {5}, {4, 5}, {10}, {11}, {10, 11}}
   ApiSurs = {{}}
   Emit = TRUE
 INVARIANTS Mono Layout SurroundIrrelevant EmitCase EmitDocs
